@@ -10,11 +10,13 @@ mod c10;
 mod c11;
 mod c12;
 mod c14;
+mod c17;
 mod c21;
 mod c23;
 mod c24;
 mod c27;
 mod c28;
+mod c30;
 mod c35;
 mod c37;
 mod c42;
@@ -31,11 +33,13 @@ pub fn run(item: &str, repo: &str, out: &str) -> Result<String, String> {
         c11::run,
         c12::run,
         c14::run,
+        c17::run,
         c21::run,
         c23::run,
         c24::run,
         c27::run,
         c28::run,
+        c30::run,
         c35::run,
         c37::run,
         c42::run,
